@@ -26,10 +26,18 @@
           [mcstep]/[mcrun]/[mcexec] run connection operations [cop] (peer writes a message,
           dispatch to a handler that replies/defers, dispatch without handler, reply through a
           deferred handle, await+push, sync, release); [scrun] is the same text over the abstract
-          specification [sworld].  [minit dg idl] is a fresh connection. *)
+          specification [sworld].  [minit dg idl] is a fresh connection.
+   round 3. [cop] also has: await without handler ([CAw0]: the slot keeps the default handler of
+          mpt_command_reserve, tag 0), addref ([CRf]; [CCl] releases one reference, the last one ends the
+          connection), next(POLLOUT) / next(POLLHUP) ([CNo], [CNh]), a log message through the logger
+          interface ([CLg]), another backend ([CRs k h]: mpt_connection_assign / mpt_connection_open / the
+          property "" of the object; k = datagram socket, stream, none), convert() and property()
+          ([CCv], [CGp]).  [cgone c]: the connection has no backend (datagram socket hung up, assign(NULL)).
+          An answer handler may fail ([wret]: the harness' waiter returns -3 for an answer that starts with ff).
+          All history theorems below ([C12_conn_*] over [mcexec]/[mcrun]) quantify over these operations too. *)
 From MptV Require Import Base.Mem C12.ReplyModel C12.ReplySpec C12.IdProofs
   C12.ReplyInv C12.ReplyStep C12.ReplyProps C12.ReplyRefine
-  C12.ConnModel C12.ConnSim C12.ConnKeep C12.ConnSpecProps C12.ConnWait C12.ConnReserve C12.ConnProofs C12.ConnBytes.
+  C12.ConnModel C12.ConnSim C12.ConnKeep C12.ConnSpecProps C12.ConnWait C12.ConnReserve C12.ConnProofs C12.ConnBytes C12.ConnObj.
 Local Open Scope nat_scope.
 
 (* ------------------------------------------------------------------ ids *)
@@ -285,7 +293,7 @@ Theorem C12_conn_request_answered_once :
   forall dg idl ops m acts code,
   let w := fst (mcexec (minit dg idl) ops) in
   let c := snd (mcexec (minit dg idl) ops) in
-  wown w = 1 -> cclosed c = false -> (cdg c = true \/ cact c = false) ->
+  wown w = 1 -> cclosed c = false -> cgone c = false -> (cdg c = true \/ cact c = false) ->
   0 < cidl c -> cidl c <= length m -> (hd 0 m < 128)%N -> all_zero (firstn (cidl c) m) = false ->
   forallb is_reply_act acts = true ->
   let id := firstn (cidl c) m in
@@ -317,7 +325,8 @@ Theorem C12_conn_answer_routing :
   | Ok (v, _) =>
     match tfind (ctab c) v with
     | Some (k, tg) =>
-      dispatch_answer c m e1 e2 = (set_tab c (trelease (ctab c) k), 0%Z, [(tg, Some (skipn (cidl c) m))]) /\
+      dispatch_answer c m e1 e2 = (set_tab c (trelease (ctab c) k), answer_ret c tg (skipn (cidl c) m),
+                                   [(tg, Some (skipn (cidl c) m))]) /\
       nth_error (ctab c) k = Some (mkwe v (Some tg))
     | None => dispatch_answer c m e1 e2 = (c, e2, []) /\ ~ In v (act_ids (ctab c))
     end
@@ -359,7 +368,7 @@ Theorem C12_conn_request_any_nonzero_byte :
   forall dg idl ops m acts code,
   let w := fst (mcexec (minit dg idl) ops) in
   let c := snd (mcexec (minit dg idl) ops) in
-  wown w = 1 -> cclosed c = false -> (cdg c = true \/ cact c = false) ->
+  wown w = 1 -> cclosed c = false -> cgone c = false -> (cdg c = true \/ cact c = false) ->
   0 < cidl c -> cidl c <= length m -> (hd 0 m < 128)%N ->
   (exists b, In b (firstn (cidl c) m) /\ b <> 0%N) ->
   forallb is_reply_act acts = true ->
@@ -444,6 +453,127 @@ Example C12_ex_reserve_two_free_three_used :
 Proof. vm_compute. reflexivity. Qed.
 
 
+(* ------------------------------------------------------------------ round 3: the rest of the object of mpt_output_remote() *)
+
+(* a connection that lost its backend (POLLHUP on the datagram socket, mpt_connection_assign(con, NULL)), reached by
+   any history: a reply through a deferred handle puts nothing on any wire *)
+Theorem C12_conn_gone_handle_silent :
+  forall dg idl ops k p,
+  let w := fst (mcexec (minit dg idl) ops) in
+  let c := snd (mcexec (minit dg idl) ops) in
+  cgone c = true -> r_wire (snd (mcstep (w, c) (CHr k p))) = [].
+Proof. exact conn_gone_handle_silent. Qed.
+
+(* ... no request can be registered and nothing can be pushed *)
+Theorem C12_conn_gone_refuses :
+  forall c tag pay, cgone c = true ->
+  do_await c tag = (c, EBadArgument) /\ do_push c pay = (c, EBadArgument, false) /\ do_finish c = (c, EBadArgument, [], false).
+Proof. exact gone_refuses. Qed.
+
+(* releasing a reference that is not the last one changes nothing but the count *)
+Theorem C12_conn_unref_not_last :
+  forall (w : world) c, cclosed c = false -> 0 < crefs c ->
+  mcstep (w, c) CCl = ((w, set_refs c (crefs c - 1)), nofault RCl [] []).
+Proof. exact (unref_not_last world mstep marmed wstep). Qed.
+
+(* next(POLLOUT) (as patched by docs/C12_dgram_next_pollout.diff): nothing is sent, nothing changes *)
+Theorem C12_conn_pollout_silent :
+  forall (w : world) c, fst (mcstep (w, c) CNo) = (w, c) /\ r_wire (snd (mcstep (w, c) CNo)) = [] /\
+                        r_wcalls (snd (mcstep (w, c) CNo)) = [].
+Proof. exact (pollout_is_silent world mstep marmed wstep). Qed.
+
+(* next(POLLHUP): the requests in flight stay registered, the reply context is kept; a datagram backend is gone *)
+Theorem C12_conn_hup_keeps_waiters :
+  forall (w : world) c, cclosed c = false ->
+  let c' := snd (fst (mcstep (w, c) CNh)) in
+  ctab c' = ctab c /\ chas c' = chas c /\ ccid c' = ccid c /\ fst (fst (mcstep (w, c) CNh)) = w /\
+  (cdg c = true -> cgone c' = true) /\ r_wcalls (snd (mcstep (w, c) CNh)) = [].
+Proof. exact (hup_keeps_waiters world mstep marmed wstep). Qed.
+
+(* another backend through mpt_connection_close: every handler waiting for an answer gets NULL exactly once, the table
+   is empty, no id is pending, the connection has no reply context any more (deferred handles of the old one are
+   detached: C12_conn_refcount), nothing is sent *)
+Theorem C12_conn_reset_releases_waiters :
+  forall (w : world) c k h, cclosed c = false -> (cact c && negb (is_assign_null k h)) = false ->
+  is_reopen c k h = false ->
+  let c' := snd (fst (mcstep (w, c) (CRs k h))) in
+  let res := snd (mcstep (w, c) (CRs k h)) in
+  ctab c' = [] /\ ccid c' = 0%N /\ chas c' = false /\ r_wire res = [] /\
+  r_wcalls res = clear_calls c /\ r_ret res = RRs (reset_ret k h) /\
+  cgone c' = (match k with KNone => true | _ => false end).
+Proof. exact (reset_releases_waiters world mstep marmed wstep). Qed.
+
+Theorem C12_conn_clear_calls :
+  forall c,
+  length (clear_calls c) = length (tactive (ctab c)) /\ Forall (fun x => snd x = None) (clear_calls c) /\
+  map fst (clear_calls c) = map (fun e => match wetag e with Some t => t | None => 0 end) (tactive (ctab c)).
+Proof. exact clear_calls_spec. Qed.
+
+(* a stream socket for an open stream re-opens the stream: reply context and pending id are kept; the wait table is
+   kept (mpt_connection_assign) or released with NULL calls (property "") *)
+Theorem C12_conn_reopen_keeps_context :
+  forall (w : world) c h, cclosed c = false -> cact c = false -> is_reopen c KStream h = true ->
+  let c' := snd (fst (mcstep (w, c) (CRs KStream h))) in
+  fst (fst (mcstep (w, c) (CRs KStream h))) = w /\ chas c' = chas c /\ ccid c' = ccid c /\ cgone c' = false /\
+  (h = HAssign -> ctab c' = ctab c /\ r_wcalls (snd (mcstep (w, c) (CRs KStream h))) = []) /\
+  (h = HPropSock -> ctab c' = [] /\ r_wcalls (snd (mcstep (w, c) (CRs KStream h))) = clear_calls c).
+Proof. exact (reopen_keeps_context world mstep marmed wstep). Qed.
+
+(* the end of mpt_stream_sync (also after an answer handler failed): the ids waited for are the same, the table is
+   compressed unless more than half of its slots still wait *)
+Theorem C12_conn_sync_end_keeps_ids :
+  forall c n wc, act_ids (ctab (fst (fst (sync_end c n wc)))) = act_ids (ctab c).
+Proof. exact sync_end_keeps_ids. Qed.
+
+(* a log message with nothing pending: exactly one outgoing message, the id bytes of the pending id (0: a notification)
+   followed by the log bytes *)
+Theorem C12_conn_log_is_one_message :
+  forall (w : world) c msg bs u,
+  cclosed c = false -> cgone c = false -> push_blocked c = false -> cact c = false -> 0 < cidl c ->
+  id2buf (ccid c) (cidl c) = Ok (bs, u) ->
+  mcstep (w, c) (CLg msg) = ((w, set_out c 0%N false []), mkcr (RLg 1%Z) [] [cout c ++ bs ++ msg] false).
+Proof. exact (log_is_one_message world mstep marmed wstep). Qed.
+
+(* non-vacuity: a datagram connection; a request is deferred, a request without handler is awaited (default handler)
+   and one with handler; the answer ff.. makes waiter 2 fail; POLLOUT; a log message; one more reference; POLLHUP;
+   the deferred reply finds no backend; a stream is assigned: the waiting default handler gets NULL (not observable),
+   the context is released; the first unref is not the last *)
+Definition ex_cops3 : list cop :=
+  [CTx [0; 1; 65]%N; CDp [HDefer] 0; CAw0 [81]%N; CAw [82]%N; CTx [128; 2; 255]%N; CDp [] 0; CNo; CLg [0; 131; 1; 104; 2; 65; 3]%N;
+   CRf; CNh; CHr 0 (Some [33]%N); CAw [83]%N; CRs KStream HAssign; CAw [84]%N; CCl; CCl].
+
+Example C12_ex_obj_results :
+  map (fun x => r_ret (fst x)) (mcrun (minit true 2) ex_cops3)
+  = [RTx 3; RDp (Some (Some 1%Z)) 0 (Some (true, [65%N])) [HHandle (Some 0)]; RAw 1 1 1 (Some 3%Z); RAw 2 2 1 (Some 3%Z); RTx 3;
+     RDp (Some (Some 1%Z)) (-17) None []; RNx (Some 0%Z); RLg 1; RRf 2; RNx (Some (-2)%Z); RHr (Some (-1)%Z);
+     RAw (-1) 0 (-1) (Some (-1)%Z); RRs 1; RAw 1 1 1 (Some 0%Z); RCl; RCl].
+Proof. vm_compute. reflexivity. Qed.
+
+Example C12_ex_obj_wire :
+  map (fun x => r_wire (fst x)) (mcrun (minit true 2) ex_cops3)
+  = [[]; []; [[0; 1; 81]%N]; [[0; 2; 82]%N]; []; []; []; [[0; 0; 0; 131; 1; 104; 2; 65; 3]%N]; []; []; []; []; []; [[0; 1; 84]%N]; []; []].
+Proof. vm_compute. reflexivity. Qed.
+
+Example C12_ex_obj_waiters :
+  map (fun x => r_wcalls (fst x)) (mcrun (minit true 2) ex_cops3)
+  = [[]; []; []; []; []; [(1, Some [255%N])]; []; []; []; []; []; []; [(0, None)]; []; []; [(3, None)]].
+Proof. vm_compute. reflexivity. Qed.
+
+(* the hypotheses of C12_conn_gone_handle_silent / C12_conn_reset_releases_waiters on reachable states *)
+Example C12_ex_obj_gone :
+  let c := snd (mcexec (minit true 2) (firstn 10 ex_cops3)) in
+  cgone c = true /\ act_ids (ctab c) = [1%N] /\ chas c = true /\ crefs c = 1 /\
+  is_reopen c KStream HAssign = false /\ (cact c && negb (is_assign_null KStream HAssign)) = false.
+Proof. vm_compute. repeat split. Qed.
+
+(* the end of mpt_stream_sync: 3 of 4 slots wait, a handler fails: 2 > 4/2 is false -> the table is compressed *)
+Example C12_ex_sync_break :
+  let '(c, z, wc) := do_sync (snd (mcexec (minit false 2)
+      [CAw [81]%N; CAw [82]%N; CAw [83]%N; CAw [84]%N; CTx [128; 4; 113]%N; CDp [] 0; CTx [128; 1; 255]%N; CTx [128; 2; 114]%N])) in
+  z = 2%Z /\ wc = [(1, Some [255%N])] /\ act_ids (ctab c) = [2; 3]%N /\ length (ctab c) = 2 /\ length (csock c) + length (cload c) = 1.
+Proof. vm_compute. repeat split. Qed.
+
+
 Print Assumptions C12_id_roundtrip.
 Print Assumptions C12_id_accepted_when_fits.
 Print Assumptions C12_id_refused_when_unfit.
@@ -476,3 +606,13 @@ Print Assumptions C12_conn_zero_test_per_byte.
 Print Assumptions C12_conn_request_any_nonzero_byte.
 Print Assumptions C12_conn_notification_all_zero.
 Print Assumptions C12_conn_reserve_table.
+Print Assumptions C12_conn_gone_handle_silent.
+Print Assumptions C12_conn_gone_refuses.
+Print Assumptions C12_conn_unref_not_last.
+Print Assumptions C12_conn_pollout_silent.
+Print Assumptions C12_conn_hup_keeps_waiters.
+Print Assumptions C12_conn_reset_releases_waiters.
+Print Assumptions C12_conn_clear_calls.
+Print Assumptions C12_conn_reopen_keeps_context.
+Print Assumptions C12_conn_sync_end_keeps_ids.
+Print Assumptions C12_conn_log_is_one_message.
